@@ -217,7 +217,13 @@ def gen_index(quick, seed):
             'probe(len([1,2,3]), len("hé"), len({"a":1,"b":2}), len(5), len(nil), len([]))',
             'x = [1, "a", nil, 2.5, [1], {"k": 1}]\nprobe(1 in x, "a" in x, nil in x, 2.5 in x, [1] in x, {"k": 1} in x, 1.0 in x, "b" in x)',
             'probe("a" in "cat", "" in "cat", "x" in "cat", "a" in {"a": 1}, "b" in {"a": 1})',
-            'probe(1 in "cat")', 'probe(1 in {"a": 1})', "probe(1 in 5)", 'probe("a" in nil)']
+            'probe(1 in "cat")', 'probe(1 in {"a": 1})', "probe(1 in 5)", 'probe("a" in nil)',
+            # a literal written directly as an argument is evaluated like anywhere else: repeated keys collapse, a failing element is
+            # an error, elements are evaluated (once, in order)
+            'probe(len({"a": 1, "b": 2, "a": 3}))', 'm = {"a": 1, "b": 2, "a": 3}\nprobe(m, len(m))', 'z = [1, 2, 3]\nprobe(len([z[0], z[7]]))\nprobe(9)',
+            'probe(len([1 + nil]))\nprobe(9)', 'probe(len({"a": nosuch[0]}))\nprobe(9)', 'probe(len([pv(1), pv(2)]), len({"k": pv(3)}), len("a" + "bc"))',
+            'for k in {"a": 1, "a": 2} {\nprobe(k)\n}', 'probe("a" in {"a": 1, "a": nil}, 1 in [pv(1), pv(1)])', 'add_key(n, len({"x": 1, "x": 1}))\nprobe(n)',
+            'probe(len([]), len({}), len(""), len([[]]), len({"": nil}))', 'x = len([nosuch, nil, a.b])\nprobe(x)']
     for i, t in enumerate(base):
         out.append(ps("idx:misc:%d" % i, t, tag="indexing / len / in"))
     out.append(ps("idx:point", 'probe(fs[0])', pt=STD_PT, tag="index of a point string"))
@@ -517,7 +523,10 @@ def gen_use(quick, seed):
     # exit() / error injected at every statement position of every script, also inside branches and loops
     wrappers = ["%s", "if true {\n%s\n}", "for i = 0; i < 2; i = i + 1 {\n%s\n}", "for v in [1, 2] {\nif v == 2 {\n%s\n}\nprobe(v)\n}",
                 "w = 0\nfor ; w < 2; add_key(pst, w) {\nw = w + 1\n%s\n}", "w = 0\nfor ; w < 3; probe(7, w) {\nw = w + 1\nif w == 2 {\n%s\n}\n}",
-                'for c in "xy" {\n%s\nprobe(c)\n}', 'for k in {"a": 1} {\n%s\n}']
+                'for c in "xy" {\n%s\nprobe(c)\n}', 'for k in {"a": 1} {\n%s\n}',
+                # several elements still to come, and a statement with an effect before the injected one
+                'for k in {"a": 1, "b": 2} {\nadd_key(cnt, k)\n%s\nprobe(k)\n}', 'for v in [1, 2, 3] {\nprobe(v)\n%s\nprobe(0)\n}',
+                'for c in "xyz" {\nadd_key(cc, c)\n%s\n}']
     # exit() ends its script wherever the call is written: as a statement of its own, as an assignment source, inside a
     # parenthesis, a list, an argument or an operand
     injections = [("exit", "exit()"), ("fail", "q = 1 + nil"), ("failkey", "add_key(kq, 1 + nil)"),
@@ -533,17 +542,32 @@ def gen_use(quick, seed):
                     body = stmts[:pos] + [w % inj] + stmts[pos:]
                     scripts = {"main": "\n".join(stmts_main), "b": base_extra["b.p"], "c": base_extra["c.p"]}
                     scripts[which] = "\n".join(body)
-                    out.append(ps("use:%s:%d:%s:%d" % (which, pos, iname, n), scripts["main"], pt=STD_PT,
+                    out.append(ps("use:%s:%d:%s:%d" % (which, pos, iname, n), scripts["main"], pt=STD_PT, maporders='{"a": 1, "b": 2}' in w,
                                   extra={"b.p": scripts["b"], "c.p": scripts["c"]}, tag="exit()/error at every position of a call tree"))
-    # use() written elsewhere than as a statement of its own: left unspecified by the model (unspec-use-position), the implementation
-    # must still not crash
-    xb = {"b.p": "probe(8)\nadd_key(kb, 1)\nif fi { exit() }\nprobe(9)", "c.p": "q = 1 + nil"}
-    for i, t in enumerate(['q = use("b.p")\nprobe(q, kb)', 'q = [pv(1), use("b.p"), pv(2)]', 'if use("b.p") { probe(1) } else { probe(2) }',
-                           'probe(pv(1), use("b.p"), pv(2))', 'for ; use("b.p"); { probe(3)\nbreak }', 'q = [pv(1), use("c.p"), pv(2)]',
-                           'for v in [use("b.p")] { probe(v) }', '(use("b.p"))', 'm = {"k": use("b.p")}', 'for i = 0; i < 2; use("b.p") { i = i + 1 }']):
-        out.append(ps("use:expr:%d" % i, "probe(0)\n" + t + "\nprobe(7)", pt=STD_PT, extra=xb, tag="use() in expression position (unspecified)"))
-    # use() as the first thing its statement evaluates (value of add_key, source of an assignment, the argument of probe): specified -
-    # the callee runs first, the call yields "no value", a callee's error carries every call site (add_key adds its own)
+    # use() written elsewhere than as a statement of its own - a condition, a loop clause, an operand, an element, an argument, a
+    # parenthesis: the callee runs then and there (same point, fresh variables), the call yields "no value", a callee's error carries
+    # the use site and the sites of the calls in progress; callee kinds: succeeds, exits, fails, fails two levels down
+    positions = ['q = use("b.p")\nprobe(q, kb)', 'q = [pv(1), use("b.p"), pv(2)]\nprobe(q)', 'if use("b.p") { probe(1) } else { probe(2) }',
+                 'probe(pv(1), use("b.p"), pv(2))', 'for ; use("b.p"); { probe(3)\nbreak }', 'for v in [use("b.p")] { probe(v) }', '(use("b.p"))',
+                 'm = {"k": use("b.p")}\nprobe(m)', 'for i = 0; i < 2; use("b.p") { i = i + 1 }', 'add_key(ku, use("b.p"))', 'add_key(ku, [pv(1), use("b.p")])',
+                 'if false { } elif use("b.p") { probe(1) } elif true { probe(2) }', 'q = pv(1) + use("b.p")', 'q = len(use("b.p"))', 'for use("b.p"); false; { }',
+                 'x = 3\nq = [use("b.p"), x]\nprobe(q, x)', 'probe(use("b.p"), use("b.p"))', 'add_key(ku, add_key(kv, use("b.p")))']
+    callees = [("ok", {"b.p": "probe(8, x)\nx = 5\nadd_key(kb, 1)\nprobe(9, x)", "c.p": "probe(3)"}),
+               ("exit", {"b.p": "probe(8)\nadd_key(kb, 1)\nif fi { exit() }\nprobe(9)", "c.p": "probe(3)"}),
+               ("fail", {"b.p": "probe(8)\nq = 1 + nil\nprobe(9)", "c.p": "probe(3)"}),
+               ("failkey", {"b.p": "probe(8)\nadd_key(kq, 1 + nil)", "c.p": "probe(3)"}),
+               ("deepfail", {"b.p": 'probe(8)\nif true {\nq = [1, use("c.p")]\n}\nprobe(9)', "c.p": "add_key(kc, 3)\nfor v in [1] {\nq = 1 + nil\n}"}),
+               ("deepok", {"b.p": 'x = 3\nif use("c.p") { probe(1) }\nprobe(x, kc)', "c.p": "add_key(kc, 3)\nx = 9\nprobe(x)"})]
+    xi = 0
+    for t in positions:
+        for cname, extra in callees:
+            if quick and cname in ("failkey", "deepok") and rng.random() < 0.6:
+                continue
+            xi += 1
+            out.append(ps("use:expr:%s:%d" % (cname, xi), "x = 1\nprobe(0)\n" + t + "\nprobe(7, x, ku, kb)", pt=STD_PT, extra=extra,
+                          tag="use() inside an expression (%s callee)" % cname))
+    # use() as the first thing its statement evaluates (value of add_key, source of an assignment, the argument of probe), with callees
+    # that share names and keys with the caller, fail at depth one and two, or exit
     lead_forms = ['add_key(ku, use("b.p"))', 'q = use("b.p")', 'probe(use("b.p"))']
     lead_callees = [("ok", {"b.p": "probe(x, y)\ny = 2\nx = 5\nadd_key(kb, y)\nadd_key(ku, 4)\nprobe(x, y, fi, ku)", "c.p": "probe(3)"}),
                     ("fail", {"b.p": "probe(8)\nq = 1 + nil\nprobe(9)", "c.p": "probe(3)"}),
@@ -838,6 +862,13 @@ def gen_check(quick, seed):
                    ("grok", 'x = [grok(a, "%{WORD:w}")]')]:
         add(use, False, "function removed from the registered table", without=[f])
         add(use, False, "same program with the full table")
+        # the v1 host registers two tables (implementations, checkers): a name missing from either is not a registered function
+        for fld in ("without_call", "without_check"):
+            add(use, False, "function removed from one of the two tables (%s)" % fld)
+            out[-1][fld] = [f]
+            add("x = 1\nif x { y = [1, {\"k\": %s}] }" % use.split(" = ")[-1].split("{ ")[-1].split("\n")[0].rstrip(" }"), False,
+                "function removed from one of the two tables (%s), nested position" % fld)
+            out[-1][fld] = [f]
     for f, use in [("one", "x = [1, 2][one(0):]"), ("void", "void()")]:
         add(use, True, "v2 function removed from the table", without=[f])
         add(use, True, "v2 same program with the full table")
@@ -852,7 +883,7 @@ BVALS = [("int", "7", 7), ("float", "1.5", 1.5), ("bool", "true", True), ("strpa
          ("strre", '"caat"', "caat"), ("strurl", '"a%20b+c"', "a%20b+c"), ("strbadurl", '"%zz"', "%zz"), ("strab", '"ab"', "ab"),
          ("strjson", '"[1,\\"a\\",null]"', '[1,"a",null]'), ("strbadjson", '"nul"', "nul"), ("strempty", '""', ""), ("nil", "nil", None),
          ("list", "[1, 2]", NOSTORE), ("map", '{"a": 1}', NOSTORE), ("strtrue", '"true"', "true"), ("strneg", '"-3"', "-3"), ("int0", "0", 0),
-         ("float0", "0.0", 0.0), ("strx", '"x"', "x")]
+         ("float0", "0.0", 0.0), ("strx", '"x"', "x"), ("strplus", '"q=a+b +c"', "q=a+b +c")]
 SITUATIONS = ["var", "field", "tag", "var+field", "var+tag", "absent"]
 BCALLS = [
     "add_key(k)", "add_key(k, 5)", 'add_key("k", 5)', "add_key(k, q.r)\nprobe(k)\nadd_key(k, 5)", "add_key(k, nil)", "set_tag(k, q.r)", "add_key(k, q.r)\nset_tag(k)", "probe(get_key(k))", "set_tag(k)", 'set_tag(k, "v")', "set_tag(k, fi)", "set_tag(k, nosuch)",
@@ -966,6 +997,34 @@ def gen_builtins(quick, seed):
         n += 1
         out.append(ps("bi:%d" % n, t, pt={"meas": "m", "tags": {"tg": "tv"}, "fields": {"fi": 7, "fs": "sv", "message": "msg"}},
                       tag="call site executed repeatedly with a changing template / argument"))
+    # random walks over the point: a few keys (message also through its alias `_`), every key-changing builtin, then type-sensitive
+    # reads of every key - whatever the sequence, each key reads with the type of the value it holds
+    wkeys = ["message", "_", "k", "n", "tg"]
+    wvals = ["5", '"s"', "1.5", "true", "nil", '"12"']
+    for wi in range(120 if quick else 1500):
+        lines = []
+        for _ in range(rng.randint(3, 7)):
+            a, b = rng.choice(wkeys), rng.choice(wkeys)
+            r = rng.random()
+            if r < 0.3:
+                lines.append("add_key(%s, %s)" % (a, rng.choice(wvals)))
+            elif r < 0.55:
+                lines.append("rename(%s, %s)" % (a, b))
+            elif r < 0.65:
+                lines.append("set_tag(%s)" % a if rng.random() < 0.5 else "set_tag(%s, %s)" % (a, rng.choice(['"v"', b])))
+            elif r < 0.75:
+                lines.append("drop_key(%s)" % a)
+            elif r < 0.85:
+                lines.append('cast(%s, "%s")' % (a, rng.choice(["int", "str", "float", "bool"])))
+            elif r < 0.92:
+                lines.append("%s = %s" % (rng.choice(["k", "n", "message"]), rng.choice(wvals)))
+            else:
+                lines.append("trim(%s)" % a)
+        lines.append("probe(len(message), len(k), len(n), len(tg), len(_))")
+        lines.append("probe(message, k, n, tg, _, get_key(message), get_key(k), get_key(n))")
+        n += 1
+        out.append(ps("bi:%d" % n, "\n".join(lines), pt={"meas": "m", "tags": {"tg": "tv"}, "fields": {"message": "msg", "n": 7, "fi": 1}},
+                      tag="random walk over the point's keys, then type-sensitive reads"))
     # sequences: the return register is not stale between calls; bystanders untouched
     J1, J2 = '"[1,\\"a\\",null]"', '"{\\"a\\":{\\"b\\":[true]}}"'     # texts of the model's JSON catalog
     seqs = ['a = load_json(%s)\na[0] = 99\nb = load_json(%s)\nprobe(a, b)' % (J1, J1),
